@@ -90,6 +90,8 @@ def drive(ctx, driver, root, scen, taskset=None, env=None, timeout=None):
 def join(scen, recs, root_id, cfg):
     out = []
     for s, r in zip(scen, recs):
+        if r.get("outcome") == "not-run":
+            continue
         if r.get("id") != s["id"]:
             raise Machinery("record/scenario id mismatch")
         if r.get("outcome") == "driver-error":
@@ -179,11 +181,11 @@ def c04_scenarios(tier, seed):
     rnd = random.Random(seed)
     if tier == "quick":
         paths = ["a", "ab", "b", "d/a"]
-        contents = ["x", "xa", ""]
+        contents = ["x", "y", ""]
         maxlen, reps = 3, 2
     else:
         paths = ["a", "ab", "b", "d/a", "d/ab", "e"]
-        contents = ["x", "xa", "ax", ""]
+        contents = ["x", "y", "xa", "ax", ""]
         maxlen, reps = 3, 3
     entries = paths + ["d"]
     fss = []
@@ -272,7 +274,8 @@ def run_c04(ctx):
     if drift:
         ctx.notes.append("model_drift: %d completion orders the pool model calls reachable could not be forced in the real pool" % drift)
     # 4. binding self-test: a corrupted digest must be rejected
-    st = selftest(ctx, recs, "C04")
+    badset = set(v["Determ_C04"]) | {v["_oa"][k - 1] for k in v["SameFun_C04"]} | {v["_oa"][k] for k in v["SameFun_C04"]} | {v["_od"][k - 1] for k in v["Inject_C04"]} | {v["_od"][k] for k in v["Inject_C04"]}
+    st = selftest(ctx, [r for i, r in enumerate(recs) if (i + 1) not in badset], "C04")
     # 5. confirm and report
     for rel, rs in viol:
         confirm_and_report(ctx, driver, rel, rs)
@@ -462,7 +465,7 @@ def run_c18(ctx):
     log("C18: %d real records" % len(recs))
     v = judge(ctx, recs)
     log("judged")
-    st = selftest(ctx, recs, "C18")
+    st = selftest(ctx, [r for i, r in enumerate(recs) if (i + 1) not in set(v["Clean_C18"])], "C18")
     log("selftest done")
     # recorded hook traces against the pool model (causal order only): drift, never a verdict
     tv = validate_traces(ctx, [r for r in recs if r.get("trace")])
